@@ -17,7 +17,8 @@ MUTANTS = [
     # -- X: buffers shared between sockets ------------------------------------------------------------
     ('c18-server-shared-buffer', 'C18', L, "lines, buffer = self.splitter(data, self.getBuffer(sock))\n            self.updateBuffer(sock, buffer)",
      "lines, buffer = self.splitter(data, self.buffer)\n            self.buffer = buffer"),
-    ('c18-server-reads-shared-buffer-only', 'C18', L, "self.splitter(data, self.getBuffer(sock))", "self.splitter(data, self.buffer + self.getBuffer(sock))\n            self.buffer = b''"),
+    ('c18-server-falls-back-to-last-tail', 'C18', L, "lines, buffer = self.splitter(data, self.getBuffer(sock))\n            self.updateBuffer(sock, buffer)",
+     "lines, buffer = self.splitter(data, self.getBuffer(sock) or self.buffer)\n            self.updateBuffer(sock, buffer)\n            self.buffer = buffer"),
     ('c18-server-line-without-sock-identity', 'C18', L, "[self.fire(line(sock, x)) for x in lines]", "[self.fire(line(None, x)) for x in lines]"),
     # -- X: \r?\n -> \n only, and other terminator rules -------------------------------------------------
     ('c18-lf-only-separator', 'C18', L, "re.compile(b'\\r?\\n')", "re.compile(b'\\n')"),
@@ -45,5 +46,7 @@ MUTANTS = [
     ('c18-parse-prefix-not-removed', 'C18', U, "prefix, s = s[1:].split(' ', 1)", "prefix, _ = s[1:].split(' ', 1)"),
     ('c18-parse-trailing-stripped', 'C18', U, "        args.append(trailing)\n", "        args.append(trailing.strip())\n"),
     ('c18-parse-prefix-user-host-swapped', 'C18', U, "        return m.groups()\n", "        return (m.group(1), m.group(3), m.group(2))\n"),
-    ('c18-command-privmsg-swaps-args', 'C18', C, "return request(Message('PRIVMSG', receivers, message))", "return request(Message('PRIVMSG', message, receivers))"),
+    ('c18-every-arg-with-colon-rejected', 'C18', M, "            raise Error('No newline allowed')\n", "            raise Error('No newline allowed')\n        if any(':' in arg for arg in self.args):\n            raise Error('no colon')\n"),
+    # not listed: a constructor function passing its parameters in another order (PRIVMSG(message, receivers)) - the statement
+    # speaks of the message's own fields, which still round-trip: equivalent for C18.
 ]
